@@ -10,6 +10,7 @@ from ..consteval import TOP
 from ..context import Ctx
 from ..loader import AnalysisError, FuncInfo, norm, own_nodes
 from ..report import RuleResult
+from .common import inline_calls
 
 META = {
     "explanation": (
@@ -49,21 +50,40 @@ def float_scaling_sites(ctx: Ctx, funcs: list[FuncInfo]) -> list[tuple[FuncInfo,
     return out
 
 
+def _guarded_returns(f: FuncInfo):
+    """[(test, returned expression)] for every `if <test>: ... return <expr>` whose body is a lone return, plus conditional
+    expressions `return A if <test> else B` (as (test, A))."""
+    out = []
+    for st in own_nodes(f.node):
+        if isinstance(st, ast.If) and st.body and isinstance(st.body[-1], ast.Return) and st.body[-1].value is not None and len(st.body) == 1:
+            out.append((st.test, st.body[-1].value))
+        elif isinstance(st, ast.Return) and isinstance(st.value, ast.IfExp):
+            out.append((st.value.test, st.value.body))
+    return out
+
+
 def _sentinels_enc(f: FuncInfo) -> dict[str, str]:
-    """{python-constant-text: wire literal} from `if value is None: return "7FFF"` / `if value is False: return ...`."""
+    """{python-constant-text: wire literal} from `if value is None: return "7FFF"` / `if value is False:` / `== None` / `in (None,)`."""
     out = {}
-    for st in f.node.body:
-        if isinstance(st, ast.If) and isinstance(st.test, ast.Compare) and len(st.test.ops) == 1 and isinstance(st.test.ops[0], ast.Is) and isinstance(st.body[0], ast.Return):
-            out[norm(st.test.comparators[0])] = norm(st.body[0].value)
+    for test, ret in _guarded_returns(f):
+        if isinstance(test, ast.Compare) and len(test.ops) == 1 and isinstance(test.ops[0], (ast.Is, ast.Eq)) and isinstance(test.comparators[0], ast.Constant) and test.comparators[0].value in (None, False, True):
+            out[norm(test.comparators[0])] = norm(ret)
     return out
 
 
 def _sentinels_dec(f: FuncInfo) -> dict[str, str]:
-    """{wire literal: python-constant-text} from `if value == "7FFF": return None`."""
+    """{wire literal: python-constant-text} from `if value == "7FFF": return None` / `if value in ("31FF", "7FFF"): return None`."""
     out = {}
-    for st in f.node.body:
-        if isinstance(st, ast.If) and isinstance(st.test, ast.Compare) and len(st.test.ops) == 1 and isinstance(st.test.ops[0], ast.Eq) and isinstance(st.body[0], ast.Return):
-            out[norm(st.test.comparators[0])] = norm(st.body[0].value)
+    for test, ret in _guarded_returns(f):
+        if not (isinstance(test, ast.Compare) and len(test.ops) == 1):
+            continue
+        op, rhs = test.ops[0], test.comparators[0]
+        if isinstance(op, ast.Eq) and isinstance(rhs, ast.Constant) and isinstance(rhs.value, str):
+            out[norm(rhs)] = norm(ret)
+        elif isinstance(op, ast.In) and isinstance(rhs, (ast.Tuple, ast.List, ast.Set)):
+            for el in rhs.elts:
+                if isinstance(el, ast.Constant) and isinstance(el.value, str):
+                    out[norm(el)] = norm(ret)
     return out
 
 
@@ -134,7 +154,7 @@ def check(ctx: Ctx) -> list[RuleResult]:
     for n in own_nodes(fd.node):
         if isinstance(n, ast.Call) and norm(n.func) == "dt":
             for k in n.keywords:
-                v = k.value  # (_seqx & MASK << S) >> S
+                v = inline_calls(ctx, fd, k.value)  # (_seqx & MASK << S) >> S, possibly via a one-line helper
                 if isinstance(v, ast.BinOp) and isinstance(v.op, ast.RShift) and isinstance(v.left, ast.BinOp) and isinstance(v.left.op, ast.BitAnd):
                     m = v.left.right
                     s_out = ctx.consts.eval_in(fd, v.right)
